@@ -464,7 +464,7 @@ func (in *Interp) schedule() {
 					bl = append(bl, fmt.Sprintf("%s on %s", g.name, g.blockedOn))
 				}
 			}
-			in.reportViolation(Violation{Label: "deadlock", Kind: "deadlock", Detail: "all goroutines blocked: " + strings.Join(bl, "; ")}, nil)
+			in.reportPathViolation(Violation{Label: "deadlock", Kind: "deadlock", Detail: "all goroutines blocked: " + strings.Join(bl, "; ")})
 			in.abort("violation", "deadlock")
 		}
 		var g *Goroutine
@@ -923,11 +923,36 @@ func (in *Interp) stepDefers(g *Goroutine, fr *Frame) int {
 	if len(g.stack) == 0 {
 		p := g.panicking
 		g.status = gDone
-		in.reportViolation(Violation{Label: "panic", Kind: "panic", Detail: fmt.Sprintf("goroutine %s: panic: %s [%s]", g.name, p.Msg, p.Kind), Pos: p.Pos}, in.currentModel())
+		in.reportPathViolation(Violation{Label: "panic", Kind: "panic", Detail: fmt.Sprintf("goroutine %s: panic: %s [%s]", g.name, p.Msg, p.Kind), Pos: p.Pos})
 		in.abort("panic", p.Msg)
 	}
 	g.stack[len(g.stack)-1].mode = 2
 	return stOK
+}
+
+// reportPathViolation reports a violation that is a path OUTCOME (panic, deadlock, a point
+// declared unreachable) rather than a failed obligation.  Branches are followed when the solver
+// cannot refute them ("unknown" keeps a branch), so the path condition is put to the solver
+// once more here: only a satisfiable path is a violation; a refuted one is dropped; an
+// undecided one makes the instance inconclusive - never a violation without a witness.
+func (in *Interp) reportPathViolation(v Violation) bool {
+	r := in.solver.Check(nil)
+	switch r {
+	case "sat":
+		m := in.solver.Model(in.allVars)
+		in.solver.Done()
+		in.reportViolation(v, m)
+		return true
+	case "unsat":
+		in.solver.Done()
+		in.abort("pruned", "infeasible path (reached through an undecided branch)")
+		return false
+	default:
+		in.solver.Done()
+		in.res.Inconcl = append(in.res.Inconcl, "path feasibility undecided at "+v.Kind+" ("+v.Detail+") "+in.solver.LastError)
+		in.abort("inconclusive", "path feasibility undecided at "+v.Kind)
+		return false
+	}
 }
 
 func (in *Interp) currentModel() map[string]uint64 {
